@@ -1,5 +1,7 @@
-// C03 harness: histories of Put/Delete/Reset on the write set of a real OverlayDB (skip-list MemDB).
-// Output = ForEach dump, Len, Size, Get probes (compared with the Lean model). Predicate on the implementation's own
+// C03 harness: histories of Put/Delete/Reset on a real OverlayDB (skip-list MemDB) over a PRE-POPULATED memory LevelDB
+// (`s:k:v` = store.Put before/while the overlay exists; the generator is biased towards writing the value that is
+// currently visible through the overlay, incl. values that only exist in the backing store).
+// Output = ForEach dump, Len, Size, MemDB.Get probes, OverlayDB.Get probes (compared with the Lean model). Predicate on the implementation's own
 // outputs: dump strictly sorted and equal to the final content; ChangeHash = sha256 over the dump; and three OTHER
 // operation orders reaching the same final content (ascending, descending, scrambled with redundant overwrites and
 // delete-then-recreate) give the same ChangeHash and the same write set.
@@ -55,24 +57,65 @@ func gen(r *hx.Rand, tier string, i int) string {
 		n = 150 + r.Intn(300)
 		wide = true
 	}
-	ops := make([]string, 0, n)
+	ops := make([]string, 0, n+8)
+	visible := map[string]string{} // what OverlayDB.Get shows for a key right now ("" / absent = nothing)
+	stored := map[string]string{}
+	touched := map[string]bool{}
+	if r.Chance(70) { // pre-populated backing store
+		for j := 1 + r.Intn(7); j > 0; j-- {
+			k := genKey(r, wide)
+			v := genVal(r)
+			if v == "-" && r.Chance(80) {
+				v = "5a"
+			}
+			ops = append(ops, "s:"+k+":"+v)
+			stored[k] = v
+			visible[k] = v
+		}
+	}
+	storedKeys := make([]string, 0, len(stored))
+	for k := range stored {
+		storedKeys = append(storedKeys, k)
+	}
+	sort.Strings(storedKeys)
 	var last string
 	for j := 0; j < n; j++ {
 		k := genKey(r, wide)
 		if last != "" && r.Chance(25) {
 			k = last // same key again: overwrite / delete-then-recreate / double delete
+		} else if len(storedKeys) > 0 && r.Chance(35) {
+			k = storedKeys[r.Intn(len(storedKeys))] // a key that lives in the backing store
 		}
 		last = k
 		switch x := r.Intn(20); {
-		case x < 12:
-			ops = append(ops, "p:"+k+":"+genVal(r))
+		case x < 13:
+			v := genVal(r)
+			if cur, ok := visible[k]; ok && cur != "-" && r.Chance(45) {
+				v = cur // write back exactly what is visible (redundant write: must still be recorded)
+			}
+			ops = append(ops, "p:"+k+":"+v)
+			visible[k] = v
+			touched[k] = true
 		case x < 19:
 			ops = append(ops, "d:"+k)
+			visible[k] = "-"
+			touched[k] = true
 		default:
 			if r.Chance(30) {
 				ops = append(ops, "r")
+				for kk := range touched {
+					if sv, ok := stored[kk]; ok {
+						visible[kk] = sv
+					} else {
+						delete(visible, kk)
+					}
+				}
+				touched = map[string]bool{}
 			} else {
-				ops = append(ops, "p:"+k+":"+genVal(r))
+				v := genVal(r)
+				ops = append(ops, "p:"+k+":"+v)
+				visible[k] = v
+				touched[k] = true
 			}
 		}
 	}
@@ -80,7 +123,7 @@ func gen(r *hx.Rand, tier string, i int) string {
 }
 
 type op struct {
-	kind byte // 'p' 'd' 'r'
+	kind byte // 'p' 'd' 'r' on the overlay, 's' = store.Put
 	k, v []byte
 }
 
@@ -96,6 +139,13 @@ func parse(s string) ([]op, bool) {
 				return nil, false
 			}
 			out = append(out, op{'p', k, v})
+		case len(f) == 3 && f[0] == "s":
+			k, e1 := hx.Unhex(f[1])
+			v, e2 := hx.Unhex(f[2])
+			if e1 != nil || e2 != nil {
+				return nil, false
+			}
+			out = append(out, op{'s', k, v})
 		case len(f) == 2 && f[0] == "d":
 			k, e1 := hx.Unhex(f[1])
 			if e1 != nil {
@@ -111,17 +161,60 @@ func parse(s string) ([]op, bool) {
 	return out, true
 }
 
-var sharedStore = leveldbstore.NewMemLevelDBStore() // never written by this harness
+// One memory LevelDB per run of `apply` would cost ~5 ms to open: a small pool is reused, each store is emptied before use
+// and replaced every 40 uses (old versions pile up in its memtable).
+type pooled struct {
+	st   *leveldbstore.LevelDBStore
+	uses int
+}
 
-// apply runs ops on a fresh overlay. Arguments are passed in scratch buffers that are clobbered after each call
-// ("it is safe to modify the contents of the arguments after Put returns").
-func apply(ops []op) *overlaydb.OverlayDB {
-	ov := overlaydb.NewOverlayDB(sharedStore)
+var pool [4]pooled
+
+func freshStore(slot int) *leveldbstore.LevelDBStore {
+	p := &pool[slot]
+	if p.st != nil && p.uses >= 40 {
+		p.st.Close()
+		p.st = nil
+	}
+	if p.st == nil {
+		p.st = leveldbstore.NewMemLevelDBStore()
+		p.uses = 0
+	}
+	p.uses++
+	it := p.st.NewIterator(nil)
+	var ks [][]byte
+	for has := it.First(); has; has = it.Next() {
+		ks = append(ks, append([]byte{}, it.Key()...))
+	}
+	it.Release()
+	for _, k := range ks {
+		if err := p.st.Delete(k); err != nil {
+			panic(err)
+		}
+	}
+	return p.st
+}
+
+// apply runs ops on a fresh overlay over store slot `slot`, pre-populated with `pre` (and by 's' ops in the history).
+// Arguments are passed in scratch buffers that are clobbered after each call ("it is safe to modify the contents of
+// the arguments after Put returns").
+func apply(slot int, pre []op, ops []op) (*overlaydb.OverlayDB, *leveldbstore.LevelDBStore) {
+	store := freshStore(slot)
+	for _, o := range pre {
+		if err := store.Put(o.k, o.v); err != nil {
+			panic(err)
+		}
+	}
+	ov := overlaydb.NewOverlayDB(store)
 	var ks, vs []byte
 	for _, o := range ops {
 		ks = append(ks[:0], o.k...)
 		vs = append(vs[:0], o.v...)
 		switch o.kind {
+		case 's':
+			if err := store.Put(ks, vs); err != nil {
+				panic(err)
+			}
 		case 'p':
 			ov.Put(ks, vs)
 		case 'd':
@@ -136,7 +229,7 @@ func apply(ops []op) *overlaydb.OverlayDB {
 			vs[i] ^= 0x5a
 		}
 	}
-	return ov
+	return ov, store
 }
 
 type kv struct{ k, v []byte }
@@ -169,7 +262,7 @@ func exec(line string) hx.Result {
 	if !ok {
 		return hx.Result{Out: "bad-op"}
 	}
-	ov := apply(ops)
+	ov, _ := apply(0, nil, ops)
 	ws := ov.GetWriteSet()
 	d := dump(ov)
 	// probes
@@ -191,16 +284,36 @@ func exec(line string) hx.Result {
 	for i, k := range probes {
 		gets[i] = hx.Hex(k) + "=" + getOf(k)
 	}
-	out := showKVs(d) + " n=" + strconv.Itoa(ws.Len()) + " sz=" + strconv.Itoa(ws.Size()) + " g=" + strings.Join(gets, ",")
+	ogets := make([]string, len(probes))
+	ogetOf := func(k []byte) string {
+		v, err := ov.Get(k)
+		if err != nil {
+			return "err"
+		}
+		return hx.Hex(v)
+	}
+	for i, k := range probes {
+		ogets[i] = hx.Hex(k) + "=" + ogetOf(k)
+	}
+	out := showKVs(d) + " n=" + strconv.Itoa(ws.Len()) + " sz=" + strconv.Itoa(ws.Size()) + " g=" + strings.Join(gets, ",") + " og=" + strings.Join(ogets, ",")
 	res := hx.Result{Out: out}
 
 	// reference final content: last write wins, deletion = empty, Reset forgets
 	final := map[string][]byte{}
+	stored := map[string][]byte{}
 	feat := map[string]bool{}
 	everDeleted := map[string]bool{}
 	for _, o := range ops {
 		switch o.kind {
+		case 's':
+			stored[string(o.k)] = o.v
+			feat["store"] = true
 		case 'p':
+			if _, ok := final[string(o.k)]; !ok {
+				if sv, ok := stored[string(o.k)]; ok && len(sv) > 0 && bytes.Equal(sv, o.v) {
+					feat["samestore"] = true // first write of a key writes the value the backing store already holds
+				}
+			}
 			if old, ok := final[string(o.k)]; ok {
 				if bytes.Equal(old, o.v) {
 					feat["same"] = true
@@ -258,6 +371,20 @@ func exec(line string) hx.Result {
 			return fail("foreach-not-strictly-sorted", "ForEach yields "+hx.Hex(d[i-1].k)+" before "+hx.Hex(d[i].k))
 		}
 	}
+	if len(d) < len(keys) {
+		have := map[string]bool{}
+		for _, e := range d {
+			have[string(e.k)] = true
+		}
+		for _, k := range keys {
+			if !have[k] {
+				if sv, ok := stored[k]; ok && bytes.Equal(sv, final[k]) {
+					return fail("writeset-misses-write-equal-to-persisted-value", "key "+hx.Hex([]byte(k))+" was written with "+hx.Hex(final[k])+" (the value the backing store holds) and is not in the write set")
+				}
+				return fail("writeset-misses-touched-key", "key "+hx.Hex([]byte(k))+" was touched and is not in the write set "+showKVs(d))
+			}
+		}
+	}
 	if len(d) != len(keys) {
 		return fail("writeset-differs-from-final-content", "write set has "+strconv.Itoa(len(d))+" entries, final content "+strconv.Itoa(len(keys)))
 	}
@@ -272,8 +399,20 @@ func exec(line string) hx.Result {
 		size += len(k) + len(final[k])
 	}
 	for _, k := range probes {
-		if _, ok := final[string(k)]; !ok && getOf(k) != "?" {
+		fv, touched := final[string(k)]
+		if !touched && getOf(k) != "?" {
 			return fail("get-differs-from-final-content", "Get of untouched key "+hx.Hex(k)+" is known")
+		}
+		want := fv
+		if !touched {
+			want = stored[string(k)]
+		}
+		if g := ogetOf(k); g != hx.Hex(want) {
+			layer := "store"
+			if touched {
+				layer = "writeset"
+			}
+			return fail("overlay-get-wrong-truth-"+layer, "OverlayDB.Get("+hx.Hex(k)+")="+g+" expected "+hx.Hex(want))
 		}
 	}
 	if ws.Len() != len(keys) {
@@ -328,8 +467,14 @@ func exec(line string) hx.Result {
 			scr[i].kind = 'd'
 		}
 	}
-	for name, alt := range map[string][]op{"ascending": asc, "descending": desc, "scrambled": scr} {
-		ov2 := apply(alt)
+	var pre []op
+	for k, v := range stored {
+		pre = append(pre, op{'s', []byte(k), v})
+	}
+	sort.Slice(pre, func(i, j int) bool { return bytes.Compare(pre[i].k, pre[j].k) < 0 })
+	for slot, name := range []string{"ascending", "descending", "scrambled"} {
+		alt := map[string][]op{"ascending": asc, "descending": desc, "scrambled": scr}[name]
+		ov2, _ := apply(slot+1, pre, alt)
 		d2 := dump(ov2)
 		if showKVs(d2) != showKVs(d) {
 			return fail("writeset-order-dependent", name+" replay of the final content leaves "+showKVs(d2))
@@ -344,7 +489,7 @@ func exec(line string) hx.Result {
 func main() {
 	hx.Main(hx.Prop{
 		ID:   "C03",
-		Rule: "histories of Put/Delete/Reset (1–30 ops; 2% with 150–450 ops over wide keys to outgrow the initial buffers) on a real OverlayDB over a key alphabet sharing prefixes (empty key, 00…, ff…, 64-byte keys); 25% of ops reuse the previous key. Non-trivial = history with >=2 touched keys or an overwrite/delete/reset feature; kinds = feature set (ow overwrite, same same-value, del, tomb delete-untouched, recreate, putempty, reset, grow)",
+		Rule: "histories of Put/Delete/Reset (1–30 ops; 2% with 150–450 ops over wide keys to outgrow the initial buffers) on a real OverlayDB over a memory LevelDB pre-populated with 0-7 entries (70% of cases), keys from an alphabet sharing prefixes (empty key, 00…, ff…, 64-byte keys); 25% of ops reuse the previous key, 35% hit a key of the backing store, 45% of those puts write back exactly the currently visible value (incl. a value only the store holds: kind samestore). Non-trivial = history with >=2 touched keys or an overwrite/delete/reset feature; kinds = feature set (ow overwrite, same same-value, del, tomb delete-untouched, recreate, putempty, reset, grow)",
 		Gen:  gen,
 		Exec: exec,
 		Corpus: []string{
@@ -352,6 +497,8 @@ func main() {
 			"H d:05", "H p:05:-", "H p:05:01;p:05:-", "H p:05:01;d:05;p:05:01", "H p:05:01;p:05:01",
 			"H p:-:-;p:00:-;p:0000:01;d:-", "H p:ff:01;p:ffff:02;p:fe:03;r;p:ff:04", "H r", "H p:01:02;r;d:01",
 			"H p:02:aa;p:01:bb;p:03:cc;p:02:dddddddd;p:02:ee",
+			"H s:05:64;s:0501:1e;p:05:64;p:0501:1e", "H s:05:64;p:05:63;p:05:64", "H s:05:64;d:05;p:05:64", "H s:05:64;p:05:64;r;p:05:64",
+			"H s:-:01;s:ff:02;p:-:01;d:ff;p:ff:02;s:00:07;p:00:07",
 		},
 		N: map[string]int{"quick": 20000, "thorough": 400000},
 	})
